@@ -37,6 +37,9 @@ def main():
     i = 0
     seeds = iter(range(1_000_003, 1_000_003 + maxn))
     pending = list(plans)
+    if os.environ.get('VERIF_SEEDS'):
+        # look at these plan seeds first (e.g. the seed a soak run printed)
+        pending = [check.gen(int(x)) for x in os.environ['VERIF_SEEDS'].split(',')] + pending
     while found is None:
         todo = pending[:batch]
         pending = pending[batch:]
